@@ -230,6 +230,10 @@ def run(prog, chk):
     # validated as data names (C09 R6)
     from . import c04, c09
     c04.container_scoping_rule(prog, chk, rid="R6", primary=False)
+    r8 = chk.rule("R8-null-category-is-not-scalar", "every decision whether a loop is the scalar loop answers no for a NULL category: the "
+                  "iterator renumbers packets after a removal only for the scalar loop (shared with C04 R6)", primary=False, floor=3)
+    c04.scalar_category_rule(prog, r8)
+
     r7 = chk.rule("R7-validator-matches-domain", "each name is (re-)validated by the normaliser of its own kind (shared with C09 R6)",
                   primary=False, floor=8)
     if c09.validator_domain(prog, r7) < 8:
